@@ -969,6 +969,529 @@ Definition unknown_var_name : list N :=
 Definition str_key : list N := [107; 101; 121]%N.
 Definition str_value : list N := [118; 97; 108; 117; 101]%N.
 
+Definition i_4 (opc ip0 ip : N) (s : state) : sres := (* CallNative *)
+  match op_u32 ip with
+  | None => SStop APanic s
+  | Some h => native_step h (ip + 4) s
+  end.
+
+Definition i_5 (opc ip0 ip : N) (s : state) : sres := (* ScalarInt *)
+  match read_le (p_code P) ip 8 with
+  | None => SStop APanic s
+  | Some x => push_next (ip + 8) s (VInt (u64_to_i64 x))
+  end.
+
+Definition i_6 (opc ip0 ip : N) (s : state) : sres := (* ScalarFloat *)
+  match read_le (p_code P) ip 8 with
+  | None => SStop APanic s
+  | Some x => push_next (ip + 8) s (VReal x)
+  end.
+
+Definition i_8 (opc ip0 ip : N) (s : state) : sres := (* StringLiteral *)
+  match op_u32 ip with
+  | None => SStop APanic s
+  | Some h =>
+      let ip := (ip + 4)%N in
+      match read_str h (p_data P) with
+      | StrPanic => SStop APanic s
+      | StrNone => SErr EInvalidArgument ip s
+      | StrOk b =>
+          let '(s1, a) := salloc s (OStr b) in
+          push_next ip s1 (VObj a)
+      end
+  end.
+
+Definition i_11 (opc ip0 ip : N) (s : state) : sres := (* CallFunction *)
+  let '(s1, fv) := spop s in
+  match fv with
+  | VObj a =>
+      match hget (st_heap s1) a with
+      | None => SStop AUB s1
+      | Some o =>
+          let go (arity label : N) (clo : option N) :=
+            match st_calls s1 with
+            | [] => SStop APanic s1                 (* "Call stack was empty" *)
+            | top :: rest =>
+                let s2 := set_calls s1 (mkFrame (fr_src top) ip (fr_off top) (fr_clo top) :: rest) in
+                let len := N.of_nat (scount s2) in
+                if (len <? arity)%N then SErr EMissingArgument ip s2
+                else
+                  match push_frame s2 (mkFrame ip0 ip (len - arity) clo) with
+                  | None => SErr ECallStackOverflow ip s2
+                  | Some s3 =>
+                      match assoc label (p_labels P) with
+                      | None => SErr (EProcedureNotFound label) ip s3
+                      | Some pos => SNext pos s3
+                      end
+                  end
+            end in
+          match o with
+          | OFun h ar => go ar h None
+          | OClo h ar _ => go ar h (Some a)
+          | ONative h => native_step h ip s1
+          | _ => SErr EInvalidArgument ip s1
+          end
+      end
+  | _ => SErr EInvalidArgument ip s1
+  end.
+
+Definition i_17 (opc ip0 ip : N) (s : state) : sres := (* SetGlobalVar *)
+  match op_u32 ip with
+  | None => SStop APanic s
+  | Some id =>
+      let '(s1, v) := spop s in
+      let i := N.to_nat id in
+      let g := st_globals s1 in
+      let g' := if length g <=? i then g ++ repeat VNil (S i - length g) else g in
+      SNext (ip + 4) (set_globals s1 (upd g' i v))
+  end.
+
+Definition i_18 (opc ip0 ip : N) (s : state) : sres := (* ReadGlobalVar *)
+  match op_u32 ip with
+  | None => SStop APanic s
+  | Some id =>
+      let ip := (ip + 4)%N in
+      match nth_error (st_globals s) (N.to_nat id) with
+      | Some v => push_next ip s v
+      | None => SErr (EVarNotFound (Some (match assoc (handle_from_u32 id) (p_var_names P) with
+                                           | Some nm => nm
+                                           | None => unknown_var_name
+                                           end))) ip s
+      end
+  end.
+
+Definition i_19 (opc ip0 ip : N) (s : state) : sres := (* SetLocalVar *)
+  match op_u32 ip with
+  | None => SStop APanic s
+  | Some hd =>
+      let ip := (ip + 4)%N in
+      match top_offset s with
+      | None => SStop APanic s
+      | Some off =>
+          let '(s1, v) := spop_w_offset s off in
+          match write_local s1 off hd v with
+          | Some s2 => SNext ip s2
+          | None => SErr (EVarNotFound None) ip s1
+          end
+      end
+  end.
+
+Definition i_20 (opc ip0 ip : N) (s : state) : sres := (* ReadLocalVar *)
+  match op_u32 ip with
+  | None => SStop APanic s
+  | Some hd =>
+      let ip := (ip + 4)%N in
+      match top_offset s with
+      | None => SStop APanic s
+      | Some off => push_next ip s (sget s (off + N.to_nat hd))
+      end
+  end.
+
+Definition i_21 (opc ip0 ip : N) (s : state) : sres := (* ClearStack *)
+  match top_offset s with
+  | None => SStop APanic s
+  | Some off => SNext ip (fst (sclear_until s off))
+  end.
+
+Definition i_22 (opc ip0 ip : N) (s : state) : sres := (* Return *)
+  match st_calls s with
+  | [] => SErr EBadReturn ip s
+  | fr :: rest =>
+      let s1 := set_calls s rest in
+      let off := N.to_nat (fr_off fr) in
+      match close_upvalues_from off s1 with
+      | ClErr e s2 => SErr e ip s2
+      | ClStop a s2 => SStop a s2
+      | ClOk s2 =>
+          let '(s3, v) := sclear_until s2 off in
+          match rest with
+          | [] => SErr EBadReturn ip s3
+          | prev :: _ =>
+              let ip' := fr_dst prev in
+              push_next ip' s3 v
+          end
+      end
+  end.
+
+Definition i_23 (opc ip0 ip : N) (s : state) : sres := (* SwapLast *)
+  let '(s1, b) := spop s in
+  let '(s2, a) := spop s1 in
+  match spush s2 b with
+  | None => SStop APanic s2
+  | Some s3 => match spush s3 a with None => SStop APanic s3 | Some s4 => SNext ip s4 end
+  end.
+
+Definition i_27 (opc ip0 ip : N) (s : state) : sres := (* Not *)
+  let '(s1, v) := spop s in
+  match as_bool (st_heap s1) v with
+  | Some b => push_next ip s1 (vbool (negb b))
+  | None => SStop AUB s1
+  end.
+
+Definition i_28 (opc ip0 ip : N) (s : state) : sres := (* Goto *)
+  match op_u32 ip with
+  | None => SStop APanic s
+  | Some raw => match jump_target raw with JPanic => SStop APanic s | JTo t => SNext t s end
+  end.
+
+Definition i_29_30 (opc ip0 ip : N) (s : state) : sres := (* GotoIfTrue / GotoIfFalse *)
+  let '(s1, c) := spop s in
+  match op_u32 ip with
+  | None => SStop APanic s1
+  | Some raw =>
+      match jump_target raw with
+      | JPanic => SStop APanic s1
+      | JTo t =>
+          match as_bool (st_heap s1) c with
+          | None => SStop AUB s1
+          | Some b =>
+              let take := if (opc =? 29)%N then b else negb b in
+              SNext (if take then t else ip + 4) s1
+          end
+      end
+  end.
+
+Definition i_31 (opc ip0 ip : N) (s : state) : sres := (* InitTable *)
+  let '(s1, a) := salloc s (OTable (mkTable [] [])) in
+  push_next ip s1 (VObj a).
+
+Definition i_32 (opc ip0 ip : N) (s : state) : sres := (* GetProperty *)
+  let '(s1, key) := spop s in
+  let '(s2, inst) := spop s1 in
+  match get_table (st_heap s2) inst with
+  | TblUb => SStop AUB s2
+  | TblNot => SErr EInvalidArgument ip s2
+  | TblOk _ t =>
+      match tget (veq0 (st_heap s2)) t key with
+      | None => SStop ACrash s2
+      | Some r => push_next ip s2 (match r with Some v => v | None => VNil end)
+      end
+  end.
+
+Definition i_33 (opc ip0 ip : N) (s : state) : sres := (* SetProperty: [key, instance, value] = pop_n::<3>() *)
+  let '(s1, key) := spop s in
+  let '(s2, inst) := spop s1 in
+  let '(s3, v) := spop s2 in
+  match get_table (st_heap s3) inst with
+  | TblUb => SStop AUB s3
+  | TblNot => SErr EInvalidArgument ip s3
+  | TblOk a t =>
+      match tinsert (veq0 (st_heap s3)) t key v with
+      | None => SStop ACrash s3
+      | Some t' => SNext ip (set_table s3 a t')
+      end
+  end.
+
+Definition i_34 (opc ip0 ip : N) (s : state) : sres := (* Len *)
+  let '(s1, v) := spop s in
+  match v with
+  | VNil => push_next ip s1 (VInt 0)
+  | VInt _ | VReal _ => push_next ip s1 (VInt 1)
+  | VObj a =>
+      match vobj_len (st_heap s1) a with
+      | Some l => push_next ip s1 (VInt l)
+      | None => SStop AUB s1
+      end
+  end.
+
+Definition i_35 (opc ip0 ip : N) (s : state) : sres := (* BeginForEach *)
+  match op_u32 ip, op_u32 (ip + 4) with
+  | Some i_h, Some t_h =>
+      let ip := (ip + 8)%N in
+      let item := slast s in
+      match get_table (st_heap s) item with
+      | TblUb => SStop AUB s
+      | TblNot => SErr EInvalidArgument ip s
+      | TblOk _ _ =>
+          match top_offset s with
+          | None => SStop APanic s
+          | Some off =>
+              match write_local s off i_h (VInt 0) with
+              | None => SErr (EVarNotFound None) ip s
+              | Some s1 =>
+                  match write_local s1 off t_h item with
+                  | None => SErr (EVarNotFound None) ip s1
+                  | Some s2 =>
+                      match op_u32 ip, op_u32 (ip + 4), op_u32 (ip + 8) with
+                      | Some i2, Some k2, Some v2 =>
+                          let ip := (ip + 12)%N in
+                          match write_local s2 off v2 VNil with
+                          | None => SErr (EVarNotFound None) ip s2
+                          | Some s3 =>
+                              match write_local s3 off k2 VNil with
+                              | None => SErr (EVarNotFound None) ip s3
+                              | Some s4 =>
+                                  match write_local s4 off i2 VNil with
+                                  | None => SErr (EVarNotFound None) ip s4
+                                  | Some s5 => SNext ip s5
+                                  end
+                              end
+                          end
+                      | _, _, _ => SStop APanic s2
+                      end
+                  end
+              end
+          end
+      end
+  | _, _ => SStop APanic s
+  end.
+
+Definition i_36 (opc ip0 ip : N) (s : state) : sres := (* ForEach *)
+  match op_u32 ip, op_u32 (ip + 4), op_u32 (ip + 8), op_u32 (ip + 12), op_u32 (ip + 16) with
+  | Some lv, Some t_h, Some i_h, Some k_h, Some v_h =>
+      let ip := (ip + 20)%N in
+      match top_offset s with
+      | None => SStop APanic s
+      | Some off =>
+          let iv := sget s (off + N.to_nat lv) in
+          let ov := sget s (off + N.to_nat t_h) in
+          match to_i64 (st_heap s) iv with
+          | None => SStop AUB s
+          | Some i =>
+              match get_table (st_heap s) ov with
+              | TblUb => SStop AUB s
+              | TblNot => SErr EAssertionError ip s
+              | TblOk _ t =>
+                  if (i <? 0)%Z && (match bld with Debug => true | Release => false end)
+                  then SStop APanic s            (* debug_assert!(0 <= i) *)
+                  else
+                    let n := Z.of_nat (length (tkeys t)) in
+                    let cont := (0 <=? i)%Z && (i <? n)%Z in
+                    if cont then
+                      let key := tnth_key t (Z.to_nat i) in
+                      match tget (veq0 (st_heap s)) t key with
+                      | None => SStop ACrash s
+                      | Some r =>
+                          let val := match r with Some v => v | None => VNil end in
+                          match write_local s off v_h val with
+                          | None => SErr (EVarNotFound None) ip s
+                          | Some s1 =>
+                              match write_local s1 off k_h key with
+                              | None => SErr (EVarNotFound None) ip s1
+                              | Some s2 =>
+                                  match write_local s2 off i_h (VInt i) with
+                                  | None => SErr (EVarNotFound None) ip s2
+                                  | Some s3 =>
+                                      match i64_result (i + 1)%Z with
+                                      | None => SStop APanic s3
+                                      | Some i1 =>
+                                          match write_local s3 off lv (VInt i1) with
+                                          | None => SErr (EVarNotFound None) ip s3
+                                          | Some s4 => push_next ip s4 (vbool true)
+                                          end
+                                      end
+                                  end
+                              end
+                          end
+                      end
+                    else push_next ip s (vbool false)
+              end
+          end
+      end
+  | _, _, _, _, _ => SStop APanic s
+  end.
+
+Definition i_37_42 (opc ip0 ip : N) (s : state) : sres := (* FunctionPointer / Closure *)
+  match op_u32 ip, op_u32 (ip + 4) with
+  | Some h, Some ar =>
+      let ip := (ip + 8)%N in
+      let '(s1, a) := salloc s (if (opc =? 37)%N then OFun h ar else OClo h ar []) in
+      push_next ip s1 (VObj a)
+  | _, _ => SStop APanic s
+  end.
+
+Definition i_38 (opc ip0 ip : N) (s : state) : sres := (* NativeFunctionPointer *)
+  match op_u32 ip with
+  | None => SStop APanic s
+  | Some hd =>
+      let ip := (ip + 4)%N in
+      match read_str hd (p_data P) with
+      | StrPanic => SStop APanic s
+      | StrNone => SErr EInvalidArgument ip s
+      | StrOk b =>
+          let '(s1, a) := salloc s (ONative (handle_of_bytes b)) in
+          push_next ip s1 (VObj a)
+      end
+  end.
+
+Definition i_39 (opc ip0 ip : N) (s : state) : sres := (* NthRow: [i, instance] = pop_n::<2>() *)
+  let '(s1, iv) := spop s in
+  let '(s2, inst) := spop s1 in
+  match get_table (st_heap s2) inst with
+  | TblUb => SStop AUB s2
+  | TblNot => SErr EInvalidArgument ip s2
+  | TblOk _ t =>
+      match iv with
+      | VInt i =>
+          if (i <? 0)%Z then SErr EInvalidArgument ip s2
+          else
+            let key := tnth_key t (Z.to_nat i) in
+            match tget (veq0 (st_heap s2)) t key with
+            | None => SStop ACrash s2
+            | Some r =>
+                let val := match r with Some v => v | None => VNil end in
+                let '(s3, row) := salloc s2 (OTable (mkTable [] [])) in
+                let '(s4, ka) := salloc s3 (OStr str_key) in
+                let '(s5, va) := salloc s4 (OStr str_value) in
+                let eq := veq0 (st_heap s5) in
+                match tinsert eq (mkTable [] []) (VObj ka) key with
+                | None => SStop ACrash s5
+                | Some t1 =>
+                    match tinsert eq t1 (VObj va) val with
+                    | None => SStop ACrash s5
+                    | Some t2 => push_next ip (set_table s5 row t2) (VObj row)
+                    end
+                end
+            end
+      | _ => SErr EInvalidArgument ip s2
+      end
+  end.
+
+Definition i_40 (opc ip0 ip : N) (s : state) : sres := (* AppendTable *)
+  let '(s1, inst) := spop s in
+  let '(s2, v) := spop s1 in
+  match get_table (st_heap s2) inst with
+  | TblUb => SStop AUB s2
+  | TblNot => SErr EInvalidArgument ip s2
+  | TblOk a t =>
+      match tappend (veq0 (st_heap s2)) t v with
+      | TOk t' => SNext ip (set_table s2 a t')
+      | TFuel => SStop ADiverge s2
+      | TCrash => SStop ACrash s2
+      end
+  end.
+
+Definition i_41 (opc ip0 ip : N) (s : state) : sres := (* PopTable *)
+  let '(s1, inst) := spop s in
+  match get_table (st_heap s1) inst with
+  | TblUb => SStop AUB s1
+  | TblNot => SErr EInvalidArgument ip s1
+  | TblOk a t =>
+      match tpop (veq0 (st_heap s1)) t with
+      | None => SStop ACrash s1
+      | Some (t', v) => push_next ip (set_table s1 a t') v
+      end
+  end.
+
+Definition i_43_44 (opc ip0 ip : N) (s : state) : sres := (* SetUpvalue / ReadUpvalue *)
+  match op_u32 ip with
+  | None => SStop APanic s
+  | Some idx =>
+      let ip := (ip + 4)%N in
+      let '(s1, wv) := if (opc =? 43)%N then spop s else (s, VNil) in
+      match st_calls s1 with
+      | [] => SStop APanic s1
+      | fr :: _ =>
+          match fr_clo fr with
+          | None => SErr ENotClosure ip s1
+          | Some ca =>
+              match hget (st_heap s1) ca with
+              | Some (OClo _ _ ups) =>
+                  match nth_error ups (N.to_nat idx) with
+                  | None => SErr EInvalidUpvalue ip s1
+                  | Some ua =>
+                      match hget (st_heap s1) ua with
+                      | Some (OUp u) =>
+                          if (opc =? 43)%N then
+                            match u_loc u with
+                            | Some l => SNext ip (sraw_set s1 l wv)
+                            | None => SNext ip (set_heap s1 (hset (st_heap s1) ua (OUp (mkUp None wv (u_next u)))))
+                            end
+                          else
+                            push_next ip s1 (match u_loc u with Some l => sraw_get s1 l | None => u_val u end)
+                      | Some _ => SErr EInvalidArgument ip s1
+                      | None => SStop AUB s1
+                      end
+                  end
+              | _ => SStop AUB s1
+              end
+          end
+      end
+  end.
+
+Definition i_45 (opc ip0 ip : N) (s : state) : sres := (* RegisterUpvalue *)
+  match read_le (p_code P) ip 1, read_le (p_code P) (ip + 1) 1 with
+  | Some index, Some is_local =>
+      let ip := (ip + 2)%N in
+      let '(s1, cv) := spop s in
+      let not_closure := SErr EInvalidArgument ip s1 in
+      match cv with
+      | VObj ca =>
+          match hget (st_heap s1) ca with
+          | Some (OClo ch car cups) =>
+              if negb (is_local =? 0)%N then
+                let loc := N.to_nat index in
+                if scount s1 <=? loc then SStop APanic s1      (* as_slice()[index] *)
+                else
+                  match walk_open (S (length (st_heap s1))) (st_heap s1) loc None (st_open s1) with
+                  | WStop a => SStop a s1
+                  | WOk prev cur =>
+                      let same :=
+                        match cur with
+                        | Some a =>
+                            match hget (st_heap s1) a with
+                            | Some (OUp u) => match u_loc u with Some l => l =? loc | None => false end
+                            | _ => false
+                            end
+                        | None => false
+                        end in
+                      if same then
+                        match cur with
+                        | Some a => SNext ip (set_heap s1 (hset (st_heap s1) ca (OClo ch car (cups ++ [a]))))
+                        | None => SStop AUB s1
+                        end
+                      else
+                        let '(s2, ua) := salloc s1 (OUp (mkUp (Some loc) VNil None)) in
+                        (* the new node is linked after prev or becomes the head; its own `next` stays
+                           null, so the rest of the list is dropped (A-35) *)
+                        let s3 :=
+                          match prev with
+                          | Some pa =>
+                              match hget (st_heap s2) pa with
+                              | Some (OUp pu) =>
+                                  set_heap s2 (hset (st_heap s2) pa (OUp (mkUp (u_loc pu) (u_val pu) (Some ua))))
+                              | _ => set_open s2 (Some ua)
+                              end
+                          | None => set_open s2 (Some ua)
+                          end in
+                        SNext ip (set_heap s3 (hset (st_heap s3) ca (OClo ch car (cups ++ [ua]))))
+                  end
+              else
+                match st_calls s1 with
+                | [] => SStop APanic s1
+                | fr :: _ =>
+                    match fr_clo fr with
+                    | None => SStop APanic s1               (* "closure not found for capture" *)
+                    | Some fa =>
+                        match hget (st_heap s1) fa with
+                        | Some (OClo _ _ fups) =>
+                            match nth_error fups (N.to_nat index) with
+                            | None => SStop APanic s1       (* index out of range *)
+                            | Some ua =>
+                                (* re-read the closure: fa may be ca itself *)
+                                SNext ip (set_heap s1 (hset (st_heap s1) ca (OClo ch car (cups ++ [ua]))))
+                            end
+                        | _ => SStop AUB s1
+                        end
+                    end
+                end
+          | Some _ => not_closure
+          | None => SStop AUB s1
+          end
+      | _ => not_closure
+      end
+  | _, _ => SStop APanic s
+  end.
+
+Definition i_46 (opc ip0 ip : N) (s : state) : sres := (* CloseUpvalue *)
+  if scount s =? 0 then SErr EInvalidArgument ip s
+  else
+    match close_upvalues_from (scount s - 1) s with
+    | ClOk s1 => SNext ip s1
+    | ClErr e s1 => SErr e ip s1
+    | ClStop a s1 => SStop a s1
+    end.
+
 (* [ip0] = address of the opcode, [ip] = ip0 + 1 *)
 Definition step (ip0 : N) (s : state) : sres :=
   let ip := (ip0 + 1)%N in
@@ -979,511 +1502,46 @@ Definition step (ip0 : N) (s : state) : sres :=
   | 1%N => arith OpSub
   | 2%N => arith OpMul
   | 3%N => binary_op ip s div_op
-  | 4%N => (* CallNative *)
-      match op_u32 ip with
-      | None => SStop APanic s
-      | Some h => native_step h (ip + 4) s
-      end
-  | 5%N => (* ScalarInt *)
-      match read_le (p_code P) ip 8 with
-      | None => SStop APanic s
-      | Some x => push_next (ip + 8) s (VInt (u64_to_i64 x))
-      end
-  | 6%N => (* ScalarFloat *)
-      match read_le (p_code P) ip 8 with
-      | None => SStop APanic s
-      | Some x => push_next (ip + 8) s (VReal x)
-      end
+  | 4%N => i_4 opc ip0 ip s
+  | 5%N => i_5 opc ip0 ip s
+  | 6%N => i_6 opc ip0 ip s
   | 7%N => push_next ip s VNil
-  | 8%N => (* StringLiteral *)
-      match op_u32 ip with
-      | None => SStop APanic s
-      | Some h =>
-          let ip := (ip + 4)%N in
-          match read_str h (p_data P) with
-          | StrPanic => SStop APanic s
-          | StrNone => SErr EInvalidArgument ip s
-          | StrOk b =>
-              let '(s1, a) := salloc s (OStr b) in
-              push_next ip s1 (VObj a)
-          end
-      end
+  | 8%N => i_8 opc ip0 ip s
   | 9%N => push_next ip s (slast s)                      (* CopyLast *)
   | 10%N => SExit s
-  | 11%N => (* CallFunction *)
-      let '(s1, fv) := spop s in
-      match fv with
-      | VObj a =>
-          match hget (st_heap s1) a with
-          | None => SStop AUB s1
-          | Some o =>
-              let go (arity label : N) (clo : option N) :=
-                match st_calls s1 with
-                | [] => SStop APanic s1                 (* "Call stack was empty" *)
-                | top :: rest =>
-                    let s2 := set_calls s1 (mkFrame (fr_src top) ip (fr_off top) (fr_clo top) :: rest) in
-                    let len := N.of_nat (scount s2) in
-                    if (len <? arity)%N then SErr EMissingArgument ip s2
-                    else
-                      match push_frame s2 (mkFrame ip0 ip (len - arity) clo) with
-                      | None => SErr ECallStackOverflow ip s2
-                      | Some s3 =>
-                          match assoc label (p_labels P) with
-                          | None => SErr (EProcedureNotFound label) ip s3
-                          | Some pos => SNext pos s3
-                          end
-                      end
-                end in
-              match o with
-              | OFun h ar => go ar h None
-              | OClo h ar _ => go ar h (Some a)
-              | ONative h => native_step h ip s1
-              | _ => SErr EInvalidArgument ip s1
-              end
-          end
-      | _ => SErr EInvalidArgument ip s1
-      end
+  | 11%N => i_11 opc ip0 ip s
   | 12%N => binary_op ip s (eq_op false)
   | 13%N => binary_op ip s (eq_op true)
   | 14%N => binary_op ip s (less_op false)
   | 15%N => binary_op ip s (less_op true)
   | 16%N => SNext ip (fst (spop s))
-  | 17%N => (* SetGlobalVar *)
-      match op_u32 ip with
-      | None => SStop APanic s
-      | Some id =>
-          let '(s1, v) := spop s in
-          let i := N.to_nat id in
-          let g := st_globals s1 in
-          let g' := if length g <=? i then g ++ repeat VNil (S i - length g) else g in
-          SNext (ip + 4) (set_globals s1 (upd g' i v))
-      end
-  | 18%N => (* ReadGlobalVar *)
-      match op_u32 ip with
-      | None => SStop APanic s
-      | Some id =>
-          let ip := (ip + 4)%N in
-          match nth_error (st_globals s) (N.to_nat id) with
-          | Some v => push_next ip s v
-          | None => SErr (EVarNotFound (Some (match assoc (handle_from_u32 id) (p_var_names P) with
-                                               | Some nm => nm
-                                               | None => unknown_var_name
-                                               end))) ip s
-          end
-      end
-  | 19%N => (* SetLocalVar *)
-      match op_u32 ip with
-      | None => SStop APanic s
-      | Some hd =>
-          let ip := (ip + 4)%N in
-          match top_offset s with
-          | None => SStop APanic s
-          | Some off =>
-              let '(s1, v) := spop_w_offset s off in
-              match write_local s1 off hd v with
-              | Some s2 => SNext ip s2
-              | None => SErr (EVarNotFound None) ip s1
-              end
-          end
-      end
-  | 20%N => (* ReadLocalVar *)
-      match op_u32 ip with
-      | None => SStop APanic s
-      | Some hd =>
-          let ip := (ip + 4)%N in
-          match top_offset s with
-          | None => SStop APanic s
-          | Some off => push_next ip s (sget s (off + N.to_nat hd))
-          end
-      end
-  | 21%N => (* ClearStack *)
-      match top_offset s with
-      | None => SStop APanic s
-      | Some off => SNext ip (fst (sclear_until s off))
-      end
-  | 22%N => (* Return *)
-      match st_calls s with
-      | [] => SErr EBadReturn ip s
-      | fr :: rest =>
-          let s1 := set_calls s rest in
-          let off := N.to_nat (fr_off fr) in
-          match close_upvalues_from off s1 with
-          | ClErr e s2 => SErr e ip s2
-          | ClStop a s2 => SStop a s2
-          | ClOk s2 =>
-              let '(s3, v) := sclear_until s2 off in
-              match rest with
-              | [] => SErr EBadReturn ip s3
-              | prev :: _ =>
-                  let ip' := fr_dst prev in
-                  push_next ip' s3 v
-              end
-          end
-      end
-  | 23%N => (* SwapLast *)
-      let '(s1, b) := spop s in
-      let '(s2, a) := spop s1 in
-      match spush s2 b with
-      | None => SStop APanic s2
-      | Some s3 => match spush s3 a with None => SStop APanic s3 | Some s4 => SNext ip s4 end
-      end
+  | 17%N => i_17 opc ip0 ip s
+  | 18%N => i_18 opc ip0 ip s
+  | 19%N => i_19 opc ip0 ip s
+  | 20%N => i_20 opc ip0 ip s
+  | 21%N => i_21 opc ip0 ip s
+  | 22%N => i_22 opc ip0 ip s
+  | 23%N => i_23 opc ip0 ip s
   | 24%N => binary_op ip s (bool_op andb)
   | 25%N => binary_op ip s (bool_op orb)
   | 26%N => binary_op ip s (bool_op xorb)
-  | 27%N => (* Not *)
-      let '(s1, v) := spop s in
-      match as_bool (st_heap s1) v with
-      | Some b => push_next ip s1 (vbool (negb b))
-      | None => SStop AUB s1
-      end
-  | 28%N => (* Goto *)
-      match op_u32 ip with
-      | None => SStop APanic s
-      | Some raw => match jump_target raw with JPanic => SStop APanic s | JTo t => SNext t s end
-      end
-  | 29%N | 30%N => (* GotoIfTrue / GotoIfFalse *)
-      let '(s1, c) := spop s in
-      match op_u32 ip with
-      | None => SStop APanic s1
-      | Some raw =>
-          match jump_target raw with
-          | JPanic => SStop APanic s1
-          | JTo t =>
-              match as_bool (st_heap s1) c with
-              | None => SStop AUB s1
-              | Some b =>
-                  let take := if (opc =? 29)%N then b else negb b in
-                  SNext (if take then t else ip + 4) s1
-              end
-          end
-      end
-  | 31%N => (* InitTable *)
-      let '(s1, a) := salloc s (OTable (mkTable [] [])) in
-      push_next ip s1 (VObj a)
-  | 32%N => (* GetProperty *)
-      let '(s1, key) := spop s in
-      let '(s2, inst) := spop s1 in
-      match get_table (st_heap s2) inst with
-      | TblUb => SStop AUB s2
-      | TblNot => SErr EInvalidArgument ip s2
-      | TblOk _ t =>
-          match tget (veq0 (st_heap s2)) t key with
-          | None => SStop ACrash s2
-          | Some r => push_next ip s2 (match r with Some v => v | None => VNil end)
-          end
-      end
-  | 33%N => (* SetProperty: [key, instance, value] = pop_n::<3>() *)
-      let '(s1, key) := spop s in
-      let '(s2, inst) := spop s1 in
-      let '(s3, v) := spop s2 in
-      match get_table (st_heap s3) inst with
-      | TblUb => SStop AUB s3
-      | TblNot => SErr EInvalidArgument ip s3
-      | TblOk a t =>
-          match tinsert (veq0 (st_heap s3)) t key v with
-          | None => SStop ACrash s3
-          | Some t' => SNext ip (set_table s3 a t')
-          end
-      end
-  | 34%N => (* Len *)
-      let '(s1, v) := spop s in
-      match v with
-      | VNil => push_next ip s1 (VInt 0)
-      | VInt _ | VReal _ => push_next ip s1 (VInt 1)
-      | VObj a =>
-          match vobj_len (st_heap s1) a with
-          | Some l => push_next ip s1 (VInt l)
-          | None => SStop AUB s1
-          end
-      end
-  | 35%N => (* BeginForEach *)
-      match op_u32 ip, op_u32 (ip + 4) with
-      | Some i_h, Some t_h =>
-          let ip := (ip + 8)%N in
-          let item := slast s in
-          match get_table (st_heap s) item with
-          | TblUb => SStop AUB s
-          | TblNot => SErr EInvalidArgument ip s
-          | TblOk _ _ =>
-              match top_offset s with
-              | None => SStop APanic s
-              | Some off =>
-                  match write_local s off i_h (VInt 0) with
-                  | None => SErr (EVarNotFound None) ip s
-                  | Some s1 =>
-                      match write_local s1 off t_h item with
-                      | None => SErr (EVarNotFound None) ip s1
-                      | Some s2 =>
-                          match op_u32 ip, op_u32 (ip + 4), op_u32 (ip + 8) with
-                          | Some i2, Some k2, Some v2 =>
-                              let ip := (ip + 12)%N in
-                              match write_local s2 off v2 VNil with
-                              | None => SErr (EVarNotFound None) ip s2
-                              | Some s3 =>
-                                  match write_local s3 off k2 VNil with
-                                  | None => SErr (EVarNotFound None) ip s3
-                                  | Some s4 =>
-                                      match write_local s4 off i2 VNil with
-                                      | None => SErr (EVarNotFound None) ip s4
-                                      | Some s5 => SNext ip s5
-                                      end
-                                  end
-                              end
-                          | _, _, _ => SStop APanic s2
-                          end
-                      end
-                  end
-              end
-          end
-      | _, _ => SStop APanic s
-      end
-  | 36%N => (* ForEach *)
-      match op_u32 ip, op_u32 (ip + 4), op_u32 (ip + 8), op_u32 (ip + 12), op_u32 (ip + 16) with
-      | Some lv, Some t_h, Some i_h, Some k_h, Some v_h =>
-          let ip := (ip + 20)%N in
-          match top_offset s with
-          | None => SStop APanic s
-          | Some off =>
-              let iv := sget s (off + N.to_nat lv) in
-              let ov := sget s (off + N.to_nat t_h) in
-              match to_i64 (st_heap s) iv with
-              | None => SStop AUB s
-              | Some i =>
-                  match get_table (st_heap s) ov with
-                  | TblUb => SStop AUB s
-                  | TblNot => SErr EAssertionError ip s
-                  | TblOk _ t =>
-                      if (i <? 0)%Z && (match bld with Debug => true | Release => false end)
-                      then SStop APanic s            (* debug_assert!(0 <= i) *)
-                      else
-                        let n := Z.of_nat (length (tkeys t)) in
-                        let cont := (0 <=? i)%Z && (i <? n)%Z in
-                        if cont then
-                          let key := tnth_key t (Z.to_nat i) in
-                          match tget (veq0 (st_heap s)) t key with
-                          | None => SStop ACrash s
-                          | Some r =>
-                              let val := match r with Some v => v | None => VNil end in
-                              match write_local s off v_h val with
-                              | None => SErr (EVarNotFound None) ip s
-                              | Some s1 =>
-                                  match write_local s1 off k_h key with
-                                  | None => SErr (EVarNotFound None) ip s1
-                                  | Some s2 =>
-                                      match write_local s2 off i_h (VInt i) with
-                                      | None => SErr (EVarNotFound None) ip s2
-                                      | Some s3 =>
-                                          match i64_result (i + 1)%Z with
-                                          | None => SStop APanic s3
-                                          | Some i1 =>
-                                              match write_local s3 off lv (VInt i1) with
-                                              | None => SErr (EVarNotFound None) ip s3
-                                              | Some s4 => push_next ip s4 (vbool true)
-                                              end
-                                          end
-                                      end
-                                  end
-                              end
-                          end
-                        else push_next ip s (vbool false)
-                  end
-              end
-          end
-      | _, _, _, _, _ => SStop APanic s
-      end
-  | 37%N | 42%N => (* FunctionPointer / Closure *)
-      match op_u32 ip, op_u32 (ip + 4) with
-      | Some h, Some ar =>
-          let ip := (ip + 8)%N in
-          let '(s1, a) := salloc s (if (opc =? 37)%N then OFun h ar else OClo h ar []) in
-          push_next ip s1 (VObj a)
-      | _, _ => SStop APanic s
-      end
-  | 38%N => (* NativeFunctionPointer *)
-      match op_u32 ip with
-      | None => SStop APanic s
-      | Some hd =>
-          let ip := (ip + 4)%N in
-          match read_str hd (p_data P) with
-          | StrPanic => SStop APanic s
-          | StrNone => SErr EInvalidArgument ip s
-          | StrOk b =>
-              let '(s1, a) := salloc s (ONative (handle_of_bytes b)) in
-              push_next ip s1 (VObj a)
-          end
-      end
-  | 39%N => (* NthRow: [i, instance] = pop_n::<2>() *)
-      let '(s1, iv) := spop s in
-      let '(s2, inst) := spop s1 in
-      match get_table (st_heap s2) inst with
-      | TblUb => SStop AUB s2
-      | TblNot => SErr EInvalidArgument ip s2
-      | TblOk _ t =>
-          match iv with
-          | VInt i =>
-              if (i <? 0)%Z then SErr EInvalidArgument ip s2
-              else
-                let key := tnth_key t (Z.to_nat i) in
-                match tget (veq0 (st_heap s2)) t key with
-                | None => SStop ACrash s2
-                | Some r =>
-                    let val := match r with Some v => v | None => VNil end in
-                    let '(s3, row) := salloc s2 (OTable (mkTable [] [])) in
-                    let '(s4, ka) := salloc s3 (OStr str_key) in
-                    let '(s5, va) := salloc s4 (OStr str_value) in
-                    let eq := veq0 (st_heap s5) in
-                    match tinsert eq (mkTable [] []) (VObj ka) key with
-                    | None => SStop ACrash s5
-                    | Some t1 =>
-                        match tinsert eq t1 (VObj va) val with
-                        | None => SStop ACrash s5
-                        | Some t2 => push_next ip (set_table s5 row t2) (VObj row)
-                        end
-                    end
-                end
-          | _ => SErr EInvalidArgument ip s2
-          end
-      end
-  | 40%N => (* AppendTable *)
-      let '(s1, inst) := spop s in
-      let '(s2, v) := spop s1 in
-      match get_table (st_heap s2) inst with
-      | TblUb => SStop AUB s2
-      | TblNot => SErr EInvalidArgument ip s2
-      | TblOk a t =>
-          match tappend (veq0 (st_heap s2)) t v with
-          | TOk t' => SNext ip (set_table s2 a t')
-          | TFuel => SStop ADiverge s2
-          | TCrash => SStop ACrash s2
-          end
-      end
-  | 41%N => (* PopTable *)
-      let '(s1, inst) := spop s in
-      match get_table (st_heap s1) inst with
-      | TblUb => SStop AUB s1
-      | TblNot => SErr EInvalidArgument ip s1
-      | TblOk a t =>
-          match tpop (veq0 (st_heap s1)) t with
-          | None => SStop ACrash s1
-          | Some (t', v) => push_next ip (set_table s1 a t') v
-          end
-      end
-  | 43%N | 44%N => (* SetUpvalue / ReadUpvalue *)
-      match op_u32 ip with
-      | None => SStop APanic s
-      | Some idx =>
-          let ip := (ip + 4)%N in
-          let '(s1, wv) := if (opc =? 43)%N then spop s else (s, VNil) in
-          match st_calls s1 with
-          | [] => SStop APanic s1
-          | fr :: _ =>
-              match fr_clo fr with
-              | None => SErr ENotClosure ip s1
-              | Some ca =>
-                  match hget (st_heap s1) ca with
-                  | Some (OClo _ _ ups) =>
-                      match nth_error ups (N.to_nat idx) with
-                      | None => SErr EInvalidUpvalue ip s1
-                      | Some ua =>
-                          match hget (st_heap s1) ua with
-                          | Some (OUp u) =>
-                              if (opc =? 43)%N then
-                                match u_loc u with
-                                | Some l => SNext ip (sraw_set s1 l wv)
-                                | None => SNext ip (set_heap s1 (hset (st_heap s1) ua (OUp (mkUp None wv (u_next u)))))
-                                end
-                              else
-                                push_next ip s1 (match u_loc u with Some l => sraw_get s1 l | None => u_val u end)
-                          | Some _ => SErr EInvalidArgument ip s1
-                          | None => SStop AUB s1
-                          end
-                      end
-                  | _ => SStop AUB s1
-                  end
-              end
-          end
-      end
-  | 45%N => (* RegisterUpvalue *)
-      match read_le (p_code P) ip 1, read_le (p_code P) (ip + 1) 1 with
-      | Some index, Some is_local =>
-          let ip := (ip + 2)%N in
-          let '(s1, cv) := spop s in
-          let not_closure := SErr EInvalidArgument ip s1 in
-          match cv with
-          | VObj ca =>
-              match hget (st_heap s1) ca with
-              | Some (OClo ch car cups) =>
-                  if negb (is_local =? 0)%N then
-                    let loc := N.to_nat index in
-                    if scount s1 <=? loc then SStop APanic s1      (* as_slice()[index] *)
-                    else
-                      match walk_open (S (length (st_heap s1))) (st_heap s1) loc None (st_open s1) with
-                      | WStop a => SStop a s1
-                      | WOk prev cur =>
-                          let same :=
-                            match cur with
-                            | Some a =>
-                                match hget (st_heap s1) a with
-                                | Some (OUp u) => match u_loc u with Some l => l =? loc | None => false end
-                                | _ => false
-                                end
-                            | None => false
-                            end in
-                          if same then
-                            match cur with
-                            | Some a => SNext ip (set_heap s1 (hset (st_heap s1) ca (OClo ch car (cups ++ [a]))))
-                            | None => SStop AUB s1
-                            end
-                          else
-                            let '(s2, ua) := salloc s1 (OUp (mkUp (Some loc) VNil None)) in
-                            (* the new node is linked after prev or becomes the head; its own `next` stays
-                               null, so the rest of the list is dropped (A-35) *)
-                            let s3 :=
-                              match prev with
-                              | Some pa =>
-                                  match hget (st_heap s2) pa with
-                                  | Some (OUp pu) =>
-                                      set_heap s2 (hset (st_heap s2) pa (OUp (mkUp (u_loc pu) (u_val pu) (Some ua))))
-                                  | _ => set_open s2 (Some ua)
-                                  end
-                              | None => set_open s2 (Some ua)
-                              end in
-                            SNext ip (set_heap s3 (hset (st_heap s3) ca (OClo ch car (cups ++ [ua]))))
-                      end
-                  else
-                    match st_calls s1 with
-                    | [] => SStop APanic s1
-                    | fr :: _ =>
-                        match fr_clo fr with
-                        | None => SStop APanic s1               (* "closure not found for capture" *)
-                        | Some fa =>
-                            match hget (st_heap s1) fa with
-                            | Some (OClo _ _ fups) =>
-                                match nth_error fups (N.to_nat index) with
-                                | None => SStop APanic s1       (* index out of range *)
-                                | Some ua =>
-                                    (* re-read the closure: fa may be ca itself *)
-                                    SNext ip (set_heap s1 (hset (st_heap s1) ca (OClo ch car (cups ++ [ua]))))
-                                end
-                            | _ => SStop AUB s1
-                            end
-                        end
-                    end
-              | Some _ => not_closure
-              | None => SStop AUB s1
-              end
-          | _ => not_closure
-          end
-      | _, _ => SStop APanic s
-      end
-  | 46%N => (* CloseUpvalue *)
-      if scount s =? 0 then SErr EInvalidArgument ip s
-      else
-        match close_upvalues_from (scount s - 1) s with
-        | ClOk s1 => SNext ip s1
-        | ClErr e s1 => SErr e ip s1
-        | ClStop a s1 => SStop a s1
-        end
+  | 27%N => i_27 opc ip0 ip s
+  | 28%N => i_28 opc ip0 ip s
+  | 29%N | 30%N => i_29_30 opc ip0 ip s
+  | 31%N => i_31 opc ip0 ip s
+  | 32%N => i_32 opc ip0 ip s
+  | 33%N => i_33 opc ip0 ip s
+  | 34%N => i_34 opc ip0 ip s
+  | 35%N => i_35 opc ip0 ip s
+  | 36%N => i_36 opc ip0 ip s
+  | 37%N | 42%N => i_37_42 opc ip0 ip s
+  | 38%N => i_38 opc ip0 ip s
+  | 39%N => i_39 opc ip0 ip s
+  | 40%N => i_40 opc ip0 ip s
+  | 41%N => i_41 opc ip0 ip s
+  | 43%N | 44%N => i_43_44 opc ip0 ip s
+  | 45%N => i_45 opc ip0 ip s
+  | 46%N => i_46 opc ip0 ip s
   | _ => SStop AUB s       (* transmute of an invalid discriminant *)
   end.
 
